@@ -34,6 +34,17 @@ func c07Object(rt *rapid.T, depth int) *gen.DNode {
 			v = c07Object(rt, depth-1)
 		case r < 4 && depth > 1:
 			v = gen.Arr(c07Object(rt, depth-1), gen.Num(1))
+			if gen.Uniform(rt, "rows", 2) == 0 {
+				// rows of records: arrays directly inside an array, each holding several objects
+				row := func() *gen.DNode {
+					a := gen.Arr()
+					for j, m := 0, 2+gen.Uniform(rt, "rowlen", 3); j < m; j++ {
+						a.Kids = append(a.Kids, c07Object(rt, 1))
+					}
+					return a
+				}
+				v = gen.Arr(row(), row(), gen.Arr(gen.Arr(c07Object(rt, 1), c07Object(rt, 1))))
+			}
 		case r < 5:
 			v = gen.Arr(gen.Num(1), gen.Num(2))
 		default:
